@@ -52,6 +52,7 @@ use identity_iota_core::NetworkName;
 use identity_iota_core::StateMetadataDocument;
 use identity_jose::jwk::Jwk;
 use identity_jose::jwk::JwkSet;
+use identity_jose::jws::JwsAlgorithm;
 use identity_jose::jws::Decoder;
 use identity_jose::jws::JwsHeader;
 use identity_storage::MethodDigest;
@@ -197,6 +198,19 @@ fn call(entry: &str, input: &[u8], w: &World) {
         }
         if let Ok(item) = Decoder::new().decode_compact_serialization(tok.as_str().as_bytes(), None) {
           let _ = item.verify(&identity_ecdsa_verifier::EcDSAJwsVerifier::default(), &j);
+        }
+        // as the key of every shipped signature verifier, under every algorithm they implement (the key of a resolved
+        // DID document is externally supplied data)
+        {
+          use identity_jose::jws::JwsVerifier;
+          use identity_jose::jws::VerificationInput;
+          for alg in [JwsAlgorithm::EdDSA, JwsAlgorithm::ES256, JwsAlgorithm::ES256K, JwsAlgorithm::ES384, JwsAlgorithm::RS256] {
+            for sig_len in [0usize, 63, 64, 65] {
+              let input = || VerificationInput { alg, signing_input: b"e30.e30".to_vec().into_boxed_slice(), decoded_signature: vec![7u8; sig_len].into_boxed_slice() };
+              let _ = EdDSAJwsVerifier::default().verify(input(), &j);
+              let _ = identity_ecdsa_verifier::EcDSAJwsVerifier::default().verify(input(), &j);
+            }
+          }
         }
         let did_jwk = format!("did:jwk:{}", identity_jose::jwu::encode_b64(text.as_bytes()));
         let _ = DIDJwk::parse(&did_jwk).map(|d| (d.jwk(), CoreDocument::expand_did_jwk(d)));
